@@ -49,6 +49,7 @@ def draw_cfg(ch, base=None):
         "fan": ch.weighted([(2, 0), (1, 1), (1, 2)], "fan"),  # several bundle ports of one type per module, re-used sources
         "adv_members": ch.chance(1, 6),  # bundle members named like a nested member's flattened path
         "ext_domains": ch.chance(1, 4),  # same-named external modules in two domains
+        "ext_nodomain": ch.chance(1, 4),  # an external module without a domain of its own
     }
     if base:
         cfg.update(base)
@@ -168,6 +169,8 @@ class Gen:
             if k == 1 and cfg.get("ext_domains"):
                 # the name of external module 0, in another domain
                 self.emit(["ext", k, "X0", ports, "verifb"])
+            elif k == 0 and cfg.get("ext_nodomain"):
+                self.emit(["ext", k, f"X{k}", ports, ""])
             else:
                 self.emit(["ext", k, f"X{k}", ports])
 
